@@ -94,6 +94,14 @@ func targets() []func() interface{} {
 		func() interface{} { return new(rec) },
 		func() interface{} { return new([]rec) },
 		func() interface{} { return new(fmt.Stringer) },
+		func() interface{} { return new([1]int) },
+		func() interface{} { return new([0]interface{}) },
+		func() interface{} {
+			return new(struct {
+				Arr  [2]int  `ion:"arr"`
+				Blob [3]byte `ion:"blob"`
+			})
+		},
 	}
 }
 
